@@ -33,11 +33,14 @@ impl<const TOTAL_NUM_BITS: u32, const NUM_INDEX_BITS: u32>
     /// `pa.tick()` advances the phase accumulator by 1 tick, expected to be called at the sample rate
     pub fn tick(&mut self) {
         self.accumulator += self.increment;
-        self.accumulator &= self.rollover_mask;
 
-        if self.accumulator < self.last_accumulator {
+        // the accumulator rolls over when it runs past the mask, check before masking so that
+        // increments of a whole cycle or more are not missed
+        if self.accumulator > self.rollover_mask {
             self.rolled_over = true;
         }
+
+        self.accumulator &= self.rollover_mask;
 
         self.last_accumulator = self.accumulator
     }
